@@ -77,7 +77,7 @@ func VerifH16s() {
 		out := []*stub.Series{
 			stub.NewSeries(stub.Labels("__name__", "foo", "a", "x", "b", "1"), stub.SymSeries("s0", 2, verifR)),
 		}
-		if sym.Tier(0, 1) == 1 {
+		if sym.Param("H16s.series", 1) > 1 {
 			out = append(out, stub.NewSeries(stub.Labels("__name__", "foo", "a", "y", "b", "1"), stub.SymSeries("s1", 1, verifR)))
 		}
 		return out
